@@ -27,7 +27,7 @@ var suitesByProp = map[string][]func(*runner, *rng){
 	"C19": {suiteDeterminism},
 	"C08": {suiteTotality, suiteTeletextHostile, suiteStlNilItems},
 	"C06": {suiteTeletext, suiteTeletextModel, suiteTeletextHamming},
-	"C07": {suiteConvert, suiteConvertModel, suiteConvertOps, suiteConvertCLI, suiteConvertRich, suiteConvertPlain, suiteConvertCLIModel, suiteConvertPlainStyled, suiteConvertPlainTtx, suiteConvertStyledTtx, suiteConvertStlStyled},
+	"C07": {suiteConvert, suiteConvertModel, suiteConvertOps, suiteConvertCLI, suiteConvertRich, suiteConvertPlain, suiteConvertCLIModel, suiteConvertPlainStyled, suiteConvertPlainTtx, suiteConvertStyledTtx, suiteConvertStlStyled, suiteConvertIllegalToTtml},
 	"C20": {suiteConcurrency},
 	"C18": {suiteFaults, suiteStlIO, suiteTeletextFullReader, suiteTeletextFaults},
 	"C03": {suiteTtml},
